@@ -83,6 +83,8 @@ def reader_table(repo):
              ("%s.lower() == 'false'" % VAL, shape('false')), ("%s.lower() == 'true'" % VAL, shape('true')),
              ("%s.upper() in _L" % VAL, lambda e, s, tr: None)] + tatoms
     it = absint.Interp(dv, atoms)
+    _cmp = type_name_atoms(TY)[1]
+    it.key_equals = lambda k, kn, s: _cmp({'_A': k, '_B': kn}, s, [])
     it.skip = lambda st: isinstance(st, ast.Try)
     out = {}
     for ty in sorted(TYPES) + ['SOMETHING_ELSE']:
@@ -111,6 +113,8 @@ def reader_table_lower(repo):
     tatoms, _ = type_name_atoms(ps[0])
     it = absint.Interp(dv, [('%s.isdigit()' % ps[1], lambda e, s, tr: True), ("'\"' in %s" % ps[1], lambda e, s, tr: False),
                             ("'\"' not in %s" % ps[1], lambda e, s, tr: True)] + tatoms)
+    _cmp2 = type_name_atoms(ps[0])[1]
+    it.key_equals = lambda k, kn, s: _cmp2({'_A': k, '_B': kn}, s, [])
     o, tr = _run_through_try(it, dv, {'type': 'INTEGER', 'declared_case': False, 'shape': 'digits'})
     return o.kind == 'return' and o.value is not None and pm.match('int(%s)' % ps[1], o.value) is not None
 
@@ -229,12 +233,6 @@ def quote(ctx):
                 for p in g.productions:
                     if p.fn is fn and isinstance(m['_I'], ast.Constant) and p.syms[m['_I'].value - 1] == 'STRING':
                         is_string = True
-            cur = n
-            while cur is not None and cur is not fn:
-                par = cur._parent
-                if isinstance(par, ast.If) and cur in par.body and "uty == 'STRING'" in src(par.test):
-                    is_string = True
-                cur = par
             if not is_string:
                 continue
             n_read += 1
@@ -243,6 +241,18 @@ def quote(ctx):
             r.check(unesc, '%s: quotes stripped from a STRING token and doubled quotes undone' % q, n, construct=q, key='not-unescaped ' + src(n),
                     msg='%s strips the quotes of a STRING token (`%s`) without turning \'\' back into \': the loaded text differs from the '
                         'text that was written' % (q, src(n)))
+    # the STRING branch of deserialize_value, whatever its spelling: the expression it returns for a quoted token
+    dv_, VAL_, table_ = reader_table(repo)
+    o_ = table_[('STRING', 'squoted')]
+    if o_.kind == 'return' and o_.value is not None:
+        for n in ast.walk(o_.value):
+            if isinstance(n, ast.Subscript) and src(n.slice) == '1:-1':
+                n_read += 1
+                unesc = UNESCAPE in src(o_.value)
+                r.check(unesc, 'deserialize_value(STRING): quotes stripped and doubled quotes undone', dv_, construct=L + 'deserialize_value',
+                        key='not-unescaped deserialize_value',
+                        msg='deserialize_value strips the quotes of a STRING token (`%s`) without turning \'\' back into \': the loaded text '
+                            'differs from the text that was written' % src(o_.value))
     if n_read < 2:
         raise AnalysisError('only %d STRING reader sites found in load.py' % n_read)
     esc = RegexNFA(r"'([^']|'')*'", lexrules.PLY_FLAGS)
